@@ -2,7 +2,12 @@ package rules
 
 import (
 	"fmt"
+	"go/constant"
+	"go/token"
+	"go/types"
+	"sort"
 	"strings"
+	"sync"
 
 	"golang.org/x/tools/go/ssa"
 
@@ -12,7 +17,7 @@ import (
 func init() {
 	Register(&Prop{
 		ID:   "C06",
-		Expl: "Decides, over the four state tables extracted from swap/*.go and the SSA effect summaries of every action, that (R1) no state reachable by ANY event sequence from the success target of the claim-payment state has a key-disclosing action, and the only terminal state reachable is the preimage-claimed one; (R2) CoopCloseMessage.Privkey is only written inside actions used by taker tables; (R3) the pay state and its successors are not FailOnrecover and every call that creates a claim payment is dominated by a guard on the persisted preimage, so a restart between the post-payment store write and the next state does not re-pay and fall into the failure edge; (R4) where negotiation timers are armed and that they are never cancelled (so OnTimeout must be safe in every later state). The quantifier is over all states, edges and call sites, i.e. over all histories of accepted events.",
+		Expl: "Decides, over the four state tables extracted from swap/*.go and the SSA effect summaries of every action, that (R1) no state reachable by ANY event sequence from the success target of the claim-payment state has a key-disclosing action, and the only terminal state reachable is the preimage-claimed one; (R2) CoopCloseMessage.Privkey is only written inside actions used by taker tables, or in helpers/closures all of whose production callers are (transitively) such actions; (R3) the pay state and its successors are not FailOnrecover and, on every static call chain from a table action to a call that creates a claim payment, some call of the chain is dominated by a guard on the persisted preimage (written directly, with len(), through a getter or a predicate helper) whose other branch only succeeds without consulting outside services, so a restart between the post-payment store write and the next state does not re-pay and fall into the failure edge; (R4) that every action which arms a negotiation timer (directly or through a helper) is run only by first states of the tables, and whether the timers are ever cancelled (so OnTimeout must be safe in every later state). The quantifier is over all states, edges and call sites, i.e. over all histories of accepted events.",
 		NotD: "Whether an HTLC is still in flight when the payment call returns an error (run-time state of the Lightning node); timing.",
 		Run:  runC06,
 	})
@@ -20,8 +25,8 @@ func init() {
 
 func runC06(c *an.Check) {
 	c.Rule("C06.R1", "no state reachable (over all events) from the success target of the pay state discloses the key; reachable terminals ⊆ {preimage-claimed}")
-	c.Rule("C06.R2", "stores to CoopCloseMessage.Privkey occur only in actions of taker tables")
-	c.Rule("C06.R3", "pay state and its successors are not FailOnrecover; every claim-payment call is dominated by the `ClaimPreimage == \"\"` guard whose other edge only succeeds")
+	c.Rule("C06.R2", "stores to CoopCloseMessage.Privkey occur only in actions of taker tables (or in helpers whose every production caller is such an action)")
+	c.Rule("C06.R3", "pay state and its successors are not FailOnrecover; every claim-payment call is dominated (in the action or at a call leading to it) by the `ClaimPreimage == \"\"` guard whose other edge only succeeds")
 	c.Rule("C06.R4", "negotiation timers are armed only in the first action of a table (info: whether toCancel is ever invoked)")
 	if !needEffects(c, fxPay, fxPreimageSpend, fxAddTimeout) {
 		return
@@ -39,6 +44,7 @@ func runC06(c *an.Check) {
 		return
 	}
 	w := c.W
+	idx := c06BuildCallIdx(w)
 
 	for _, t := range tk {
 		pays := t.statesWith(fxPay)
@@ -46,7 +52,7 @@ func runC06(c *an.Check) {
 			pe := t.T.States[p]
 			tgt, ok := pe.Events[evSucceeded]
 			if !ok {
-				c.Bad("C06.R1", t.key(p), t.pos(c, p), "pay state has no success edge")
+				c.Unknown("C06.R1", t.key(p), t.pos(c, p), "the pay state has no "+evSucceeded+" edge: the state entered after a successful payment cannot be identified")
 				continue
 			}
 			// the preimage-claimed terminal: success target of the state with the preimage spend
@@ -62,6 +68,10 @@ func runC06(c *an.Check) {
 					continue
 				}
 				e := t.T.States[s]
+				if e.Terminal() && len(okTerm) == 0 {
+					c.Unknown("C06.R1", t.key(s)+" terminal-after-payment", t.pos(c, s), "the preimage-claimed terminal state cannot be identified (no state of this table builds the preimage spend synchronously)")
+					continue
+				}
 				if s == tgt {
 					// the target itself
 					c.Decide(!t.discloses(w, s, dis), "C06.R1", t.key(p)+" --"+evSucceeded+"--> "+s, t.pos(c, s),
@@ -111,99 +121,176 @@ func runC06(c *an.Check) {
 			}
 		}
 	}
-	for fn, sts := range dis {
+	var disFns []*ssa.Function
+	for fn := range dis {
+		disFns = append(disFns, fn)
+	}
+	sort.Slice(disFns, func(i, j int) bool { return w.FuncName(disFns[i]) < w.FuncName(disFns[j]) })
+	for _, fn := range disFns {
 		name := w.FuncName(fn)
-		pos := w.Pos(sts[0].Pos())
-		switch {
-		case inOther[fn] != "":
-			c.Bad("C06.R2", name, pos, "a key-disclosing action is used by a non-taker table: "+inOther[fn])
-		case inTaker[fn]:
-			c.OK("C06.R2", name, pos, "disclosing action appears only in taker tables")
+		pos := w.Pos(dis[fn][0].Pos())
+		v, why := c06Discloser(w, idx, fn, inTaker, inOther, 0, map[*ssa.Function]bool{})
+		switch v {
+		case c06OK:
+			c.OK("C06.R2", name, pos, why)
+		case c06Bad:
+			c.Bad("C06.R2", name, pos, why)
 		default:
-			c.Bad("C06.R2", name, pos, "CoopCloseMessage.Privkey is written outside the actions of the taker tables")
+			c.Unknown("C06.R2", name, pos, why)
 		}
 	}
 
 	// R3: guard on the persisted preimage before every payment-creating call
-	nPay := 0
+	type payUse struct {
+		in    ssa.CallInstruction
+		roots map[*ssa.Function]bool
+	}
+	payUses := map[ssa.CallInstruction]*payUse{}
+	payStates := map[string]bool{}
+	for _, t := range ts {
+		for _, s := range t.T.Order {
+			for _, ex := range t.Sum[s].Execs {
+				for _, ef := range w.Summary(ex).Sites(fxPay) {
+					u := payUses[ef.Info.Instr]
+					if u == nil {
+						u = &payUse{in: ef.Info.Instr, roots: map[*ssa.Function]bool{}}
+						payUses[ef.Info.Instr] = u
+					}
+					u.roots[ex] = true
+					payStates[t.key(s)] = true
+				}
+			}
+		}
+	}
 	for _, fn := range prodFuncs(w) {
-		if w.FnRel(fn) != "swap" {
+		if w.FnRel(fn) != "swap" || isDummy(w, fn) {
 			continue
 		}
 		for _, call := range callsNamed(w, fn, fxPay) {
-			nPay++
-			facts := w.FactsDominating(call)
-			cons := w.FuncName(fn) + " call " + strings.TrimPrefix(fxPay, "iface:")
-			var guard *an.Fact
-			for i, f := range facts {
-				if an.EqIs(f, "==", "SwapData.ClaimPreimage", `""`) {
-					guard = &facts[i]
-				}
+			if payUses[call] == nil {
+				c.Unknown("C06.R3", w.FuncName(fn)+" call "+strings.TrimPrefix(fxPay, "iface:"), w.Pos(call.Pos()),
+					"a claim payment is started by code that no action of a state table reaches synchronously: the restart behaviour of this call is not covered by the rule")
 			}
-			if guard == nil {
-				c.Bad("C06.R3", cons, w.Pos(call.Pos()),
-					"the claim payment is started without testing the persisted ClaimPreimage: a crash after the post-payment store write and before the next state is stored re-executes this action, pays again, and an 'already paid' error takes the failure edge to key disclosure. Facts that do hold: "+an.DescribeFacts(facts))
-				continue
-			}
-			// the other edge of that guard must only succeed
-			other := an.Edge{From: guard.Edge.From, Idx: 1 - guard.Edge.Idx}
-			reach := an.ReachBlocks([]*ssa.BasicBlock{other.To()}, nil, nil)
-			evs := returnEventsFrom(w, fn, reach)
-			okOnly := true
-			if other.To() == guard.Edge.To() {
-				okOnly = false
-			}
-			// the blocks reachable from the "already have a preimage" edge must not reach the pay call
-			if reach[call.Block()] {
-				okOnly = false
-			}
-			for ev := range evs {
-				if ev != evSucceeded {
-					okOnly = false
-				}
-			}
-			imp := impureCallsIn(w, fn, alreadyDoneRegion(w, fn, "SwapData.ClaimPreimage"))
-			c.Decide(len(imp) == 0, "C06.R3", cons+" already-paid path", w.Pos(call.Pos()),
-				"a swap whose preimage is already recorded succeeds without consulting outside services",
-				"on re-execution with the preimage already recorded (restart after a successful payment) the action still calls "+strings.Join(imp, "; ")+" before it returns: if that fails, or the payment window has meanwhile closed, the failure edge sends coop_close with the key although the invoice was paid")
-			c.Decide(okOnly, "C06.R3", cons, w.Pos(call.Pos()),
-				"payment is skipped and success returned when the preimage is already recorded",
-				fmt.Sprintf("the branch taken when a preimage is already recorded can still pay or fail (returns %v)", sortedKeysOf(evs)))
 		}
 	}
-	c.AtLeast("C06.R3", "claim-payment call sites", nPay, 1)
-
-	// R4: timers
-	f := ts[0].F
-	sites := findCallSites(w, fxAddTimeout)
-	c.AtLeast("C06.R4", "addNewTimeOut call sites", len(sites), 3)
-	for _, site := range sites {
-		fn := site.Parent()
-		// which states run this function?
-		first := true
-		used := false
-		for _, t := range ts {
-			for _, s := range t.T.Order {
-				for _, ef := range t.Sum[s].Effects {
-					if ef.Info.Instr == site {
-						used = true
-						// s must be the target of an edge out of Default
-						isFirst := false
-						for _, ev := range t.T.States[""].SortedEvents() {
-							if t.T.States[""].Events[ev] == s {
-								isFirst = true
-							}
-						}
-						if !isFirst {
-							first = false
-						}
-					}
+	var uses []*payUse
+	for _, u := range payUses {
+		uses = append(uses, u)
+	}
+	sort.Slice(uses, func(i, j int) bool { return uses[i].in.Pos() < uses[j].in.Pos() })
+	const field = "SwapData.ClaimPreimage"
+	for _, u := range uses {
+		var roots []*ssa.Function
+		for r := range u.roots {
+			roots = append(roots, r)
+		}
+		sort.Slice(roots, func(i, j int) bool { return w.FuncName(roots[i]) < w.FuncName(roots[j]) })
+		for _, root := range roots {
+			cons := w.FuncName(root) + " call " + strings.TrimPrefix(fxPay, "iface:")
+			pos := w.Pos(u.in.Pos())
+			chains := c06Chains(w, idx, root, u.in, false)
+			if len(chains) == 0 {
+				c.Unknown("C06.R3", cons, pos, "the static call chain from the action to the payment call cannot be reconstructed")
+				continue
+			}
+			var impBad, impUnk []string
+			var facts []an.Fact
+			unguarded, opaque := "", ""
+			for _, ch := range chains {
+				g := c06ChainGuard(w, ch, field, false, false)
+				facts = append(facts, g.facts...)
+				switch {
+				case g.field != "":
+					impBad = append(impBad, g.impure...)
+					impUnk = append(impUnk, g.impureAfter...)
+				case g.opaque != "":
+					opaque = g.opaque
+				default:
+					unguarded = c06ChainString(w, ch)
 				}
 			}
+			switch {
+			case unguarded != "":
+				c.Bad("C06.R3", cons, pos,
+					"the claim payment is started without a guard on the persisted ClaimPreimage whose already-paid branch only succeeds (call chain "+unguarded+"): a crash after the post-payment store write and before the next state is stored re-executes this action, pays again, and an 'already paid' error takes the failure edge to key disclosure. Facts that do hold: "+an.DescribeFacts(facts))
+				continue
+			case opaque != "":
+				c.Unknown("C06.R3", cons, pos, "cannot decide whether the payment is guarded: "+opaque)
+				continue
+			}
+			switch {
+			case len(impBad) > 0:
+				c.Bad("C06.R3", cons+" already-paid path", pos,
+					"on re-execution with the preimage already recorded (restart after a successful payment) the action still calls "+strings.Join(c06Uniq(impBad), "; ")+" before it returns: if that fails, or the payment window has meanwhile closed, the failure edge sends coop_close with the key although the invoice was paid")
+			case len(impUnk) > 0:
+				c.Unknown("C06.R3", cons+" already-paid path", pos,
+					"the ClaimPreimage guard sits inside a helper; after it returns the caller calls outside services ("+strings.Join(c06Uniq(impUnk), "; ")+") and the rule cannot separate the first execution from the re-execution there")
+			default:
+				c.OK("C06.R3", cons+" already-paid path", pos, "a swap whose preimage is already recorded succeeds without consulting outside services")
+			}
+			c.OK("C06.R3", cons, pos, "payment is skipped and success returned when the preimage is already recorded")
 		}
-		_ = f
-		c.Decide(used && first, "C06.R4", w.FuncName(fn)+" addNewTimeOut", w.Pos(site.Pos()),
-			"negotiation timer armed in the first state of its table(s)", "a timeout is armed outside the first state of a table: OnTimeout provenance changed")
+	}
+	c.AtLeast("C06.R3", "states whose action starts the claim payment", len(payStates), 2)
+
+	// R4: timers. The semantic instance is (table, state that arms a timer),
+	// found through the effect summaries, so a shared arming helper counts once
+	// per state that uses it.
+	armStates := 0
+	armExecs := map[*ssa.Function][]string{} // exec -> states that are not first states
+	armPos := map[*ssa.Function]ssa.CallInstruction{}
+	reached := map[ssa.CallInstruction]bool{}
+	for _, t := range ts {
+		first := map[string]bool{}
+		if d := t.T.States[""]; d != nil {
+			for _, ev := range d.SortedEvents() {
+				first[d.Events[ev]] = true
+			}
+		}
+		if len(first) == 0 {
+			c.Unknown("C06.R4", t.key("")+" first states", t.pos(c, ""), "the table has no default state with outgoing events: its first states cannot be identified")
+			continue
+		}
+		for _, s := range t.T.Order {
+			armed := false
+			for _, ex := range t.Sum[s].Execs {
+				sites := w.Summary(ex).Sites(fxAddTimeout)
+				if len(sites) == 0 {
+					continue
+				}
+				armed = true
+				for _, ef := range sites {
+					reached[ef.Info.Instr] = true
+				}
+				if _, ok := armExecs[ex]; !ok {
+					armExecs[ex] = nil
+					armPos[ex] = sites[0].Info.Instr
+				}
+				if !first[s] {
+					armExecs[ex] = append(armExecs[ex], t.key(s))
+				}
+			}
+			if armed {
+				armStates++
+			}
+		}
+	}
+	c.AtLeast("C06.R4", "(table, state) pairs that arm a negotiation timer", armStates, 4)
+	var armFns []*ssa.Function
+	for fn := range armExecs {
+		armFns = append(armFns, fn)
+	}
+	sort.Slice(armFns, func(i, j int) bool { return w.FuncName(armFns[i]) < w.FuncName(armFns[j]) })
+	for _, fn := range armFns {
+		late := armExecs[fn]
+		c.Decide(len(late) == 0, "C06.R4", w.FuncName(fn)+" addNewTimeOut", w.Pos(armPos[fn].Pos()),
+			"negotiation timer armed in the first state of its table(s)", "a timeout is armed outside the first state of a table ("+strings.Join(late, ", ")+"): OnTimeout provenance changed")
+	}
+	for _, site := range findCallSites(w, fxAddTimeout) {
+		if !reached[site] && !isDummy(w, site.Parent()) {
+			c.Unknown("C06.R4", w.FuncName(site.Parent())+" addNewTimeOut", w.Pos(site.Pos()),
+				"a timeout is armed by code that no action of a state table reaches synchronously: its provenance is not covered by the rule")
+		}
 	}
 	// is toCancel ever invoked?
 	invoked := false
@@ -224,3 +311,648 @@ func sortedKeysOf(m map[string][]*ssa.Return) []string {
 	}
 	return sortedKeys(k)
 }
+
+const (
+	c06OK = iota
+	c06Bad
+	c06Unknown
+)
+
+// c06Discloser classifies a function that writes CoopCloseMessage.Privkey (or
+// calls one that does): fine when it is an action of taker tables only, or a
+// helper all of whose production callers are fine (transitively, depth <= 4).
+func c06Discloser(w *an.World, idx *c06CallIdx, fn *ssa.Function, inTaker map[*ssa.Function]bool, inOther map[*ssa.Function]string, depth int, onPath map[*ssa.Function]bool) (int, string) {
+	name := w.FuncName(fn)
+	switch {
+	case inOther[fn] != "":
+		return c06Bad, "a key-disclosing action is used by a non-taker table: " + inOther[fn]
+	case inTaker[fn]:
+		return c06OK, "disclosing action appears only in taker tables"
+	case depth >= 4:
+		return c06Unknown, "call depth exceeded while looking for the callers of " + name
+	case onPath[fn]:
+		return c06OK, "recursive"
+	}
+	if c06ValueUse(w, fn) {
+		return c06Unknown, name + " is used as a function value: its callers cannot be enumerated"
+	}
+	sites := idx.sites[fn]
+	if len(sites) == 0 {
+		if fn.Signature.Recv() != nil {
+			return c06Unknown, "method " + name + " writes the key and has no static production caller (it may be invoked through an interface); it is not an action of a taker table"
+		}
+		if fn.Parent() != nil {
+			return c06Unknown, "closure " + name + " writes the key and its invocation cannot be found"
+		}
+		if o := fn.Object(); o != nil && (o.Exported() || o.Name() == "main" || o.Name() == "init") {
+			return c06Bad, "CoopCloseMessage.Privkey is written on a path that starts at " + name + ", which is not an action of a taker table"
+		}
+		return c06OK, name + " is never referenced by production code"
+	}
+	onPath[fn] = true
+	defer func() { onPath[fn] = false }()
+	verdict, why := c06OK, ""
+	var callers []string
+	for _, s := range sites {
+		v, y := c06Discloser(w, idx, s.Parent(), inTaker, inOther, depth+1, onPath)
+		callers = append(callers, w.FuncName(s.Parent()))
+		switch {
+		case v == c06Bad:
+			return c06Bad, "the key is written in " + name + ", called by " + w.FuncName(s.Parent()) + ": " + y
+		case v == c06Unknown && verdict == c06OK:
+			verdict, why = c06Unknown, y
+		}
+	}
+	if verdict == c06OK {
+		return c06OK, "helper whose only production callers are actions of taker tables (" + strings.Join(c06Uniq(callers), ", ") + ")"
+	}
+	return verdict, why
+}
+
+// c06ValueUse: fn is referenced other than as the callee of a call (method
+// value, callback, stored closure).
+func c06ValueUse(w *an.World, fn *ssa.Function) bool {
+	for _, g := range prodFuncs(w) {
+		for _, b := range g.Blocks {
+			for _, in := range b.Instrs {
+				switch x := in.(type) {
+				case *ssa.MakeClosure:
+					hit := x.Fn == fn
+					if !hit {
+						for _, f := range funcValues(x) {
+							if f == fn {
+								hit = true
+							}
+						}
+					}
+					if !hit || x.Referrers() == nil {
+						continue
+					}
+					for _, r := range *x.Referrers() {
+						call, ok := r.(ssa.CallInstruction)
+						if !ok {
+							if _, dbg := r.(*ssa.DebugRef); dbg {
+								continue
+							}
+							return true
+						}
+						_ = call // callee position or an argument: both are call sites of the index
+					}
+				default:
+					var ops []*ssa.Value
+					ops = in.Operands(ops)
+					for i, op := range ops {
+						if op == nil || *op != ssa.Value(fn) {
+							continue
+						}
+						if call, ok := in.(ssa.CallInstruction); ok && i == 0 && call.Common().Value == ssa.Value(fn) {
+							continue
+						}
+						return true
+					}
+				}
+			}
+		}
+	}
+	return false
+}
+
+// ==== shared-begin: call-chain / guard helpers (the same code, up to the prefix, in each of this author's rule files) ====
+
+func c06Uniq(in []string) []string {
+	m := map[string]bool{}
+	for _, s := range in {
+		m[s] = true
+	}
+	return sortedKeys(m)
+}
+
+func c06ChainString(w *an.World, ch []c06Step) string {
+	var p []string
+	for _, st := range ch {
+		p = append(p, w.FuncName(st.Fn))
+	}
+	return strings.Join(p, " -> ")
+}
+
+type c06GuardResult struct {
+	field       string // guarding field, "" if none
+	opaque      string // why the chain could not be interpreted (then field == "")
+	facts       []an.Fact
+	impure      []string // outside-service calls that certainly lie on the already-done path
+	impureAfter []string // outside-service calls in callers after a guarded helper returned
+}
+
+// c06After: blocks that execute after call succeeded (after the call when its
+// error is not tested or it has none).
+func c06After(call ssa.CallInstruction) map[*ssa.BasicBlock]bool {
+	if cv, ok := call.(*ssa.Call); ok {
+		if okE, _ := an.OkEdges(cv); len(okE) > 0 {
+			var st []*ssa.BasicBlock
+			for _, e := range okE {
+				st = append(st, e.To())
+			}
+			return an.ReachBlocks(st, nil, nil)
+		}
+	}
+	after := an.ReachFromInstr(call)
+	after[call.Block()] = true
+	return after
+}
+
+// c06ChainGuard looks for a guard `SwapData.X is zero` that dominates one call
+// of the chain, with X assigned after the effect at that level or further down.
+//
+// only restricts the search to one field ("" = any persisted field);
+// needAssigned demands the assignment after the effect; allowNext accepts an
+// already-done branch that delegates to the next action of a wrapper.
+func c06ChainGuard(w *an.World, ch []c06Step, only string, needAssigned, allowNext bool) c06GuardResult {
+	var res c06GuardResult
+	for k, st := range ch {
+		facts := w.FactsDominating(st.Call)
+		res.facts = append(res.facts, facts...)
+		for _, f := range facts {
+			fld := c06ZeroFactField(w, f)
+			if fld == "" || (only != "" && fld != only) {
+				continue
+			}
+			// assigned after the effect: at this level after the call, or at a deeper level
+			assigned := false
+			for j := k; j < len(ch); j++ {
+				after := c06After(ch[j].Call)
+				for _, s := range storesTo(ch[j].Fn, fld) {
+					if after[s.Block()] {
+						assigned = true
+					}
+				}
+				// through a recording helper called after the effect
+				for _, call := range an.Calls(ch[j].Fn) {
+					if !after[call.Block()] || call == ch[j].Call {
+						continue
+					}
+					if g := call.Common().StaticCallee(); g != nil && w.InModule(g) && c06FnStores(w, g, fld) {
+						assigned = true
+					}
+				}
+			}
+			if !assigned && needAssigned {
+				continue
+			}
+			// the "already done" edge must not reach the guarded call nor return a failure
+			other := an.Edge{From: f.Edge.From, Idx: 1 - f.Edge.Idx}
+			reach := an.ReachBlocks([]*ssa.BasicBlock{other.To()}, nil, nil)
+			if reach[st.Call.Block()] {
+				continue
+			}
+			bad, unres := false, false
+			for ev := range returnEventsFrom(w, st.Fn, reach) {
+				if ev == "?" {
+					unres = true
+				} else if ev != evSucceeded && !(ev == "NEXT" && allowNext) {
+					bad = true
+				}
+			}
+			for _, r := range an.Returns(st.Fn) {
+				if !reach[r.Block()] {
+					continue
+				}
+				for _, rv := range r.Results {
+					if an.IsErrorType(rv.Type()) && !an.IsNilConst(rv) && !c06OnlyNil(w, rv) {
+						bad = true
+					}
+				}
+			}
+			if bad {
+				continue
+			}
+			if unres {
+				res.opaque = "the already-done branch of the guard on " + fld + " in " + w.FuncName(st.Fn) + " returns an event that cannot be resolved"
+				continue
+			}
+			res.field = fld
+			res.impure, res.impureAfter = nil, nil
+			// purity of the already-done path: the guard's function with the zero
+			// edges removed, and everything the callers above run before the call
+			res.impure = append(res.impure, impureCallsIn(w, st.Fn, c06DoneRegion(w, st.Fn, fld))...)
+			for j := 0; j < k; j++ {
+				before, after := c06BeforeAfter(ch[j].Call)
+				res.impure = append(res.impure, impureCallsIn(w, ch[j].Fn, before)...)
+				for _, x := range c06ImpureExcept(w, ch[j].Fn, after, ch[j].Call) {
+					res.impureAfter = append(res.impureAfter, x)
+				}
+			}
+		}
+		if res.field != "" {
+			return res
+		}
+	}
+	if only != "" && res.opaque == "" {
+		// a dominating condition that talks about the field in a form that is not
+		// understood: do not claim the guard is missing
+		short := only[strings.LastIndex(only, ".")+1:]
+		for _, f := range res.facts {
+			if strings.Contains(f.String(), short) && c06ZeroFactField(w, f) == "" && !c06NonZeroFact(w, f, only) {
+				res.opaque = "a condition that dominates the call mentions " + only + " in a form the rule does not interpret: " + f.String()
+			}
+		}
+	}
+	return res
+}
+
+// c06NonZeroFact: f says that field is NOT zero (the interpreted opposite of a guard).
+func c06NonZeroFact(w *an.World, f an.Fact, field string) bool {
+	if !f.NonNum || f.Rel != "!=" {
+		return false
+	}
+	g := f
+	g.Rel = "=="
+	return c06ZeroFactField(w, g) == field
+}
+
+// c06OnlyNil: an error value that can only be nil (named result never assigned).
+func c06OnlyNil(w *an.World, v ssa.Value) bool {
+	src := w.Sources(v, an.FlowOpts{})
+	return len(src.Leaves) > 0 && src.OnlyFrom(func(s an.Src) bool { return s.Kind == "zero" && s.Name == "nil" })
+}
+
+// c06BeforeAfter: blocks from which call's block is reachable without having
+// executed it (strictly before) / blocks reachable after it.
+func c06BeforeAfter(call ssa.CallInstruction) (before, after map[*ssa.BasicBlock]bool) {
+	fn := call.Parent()
+	after = an.ReachFromInstr(call)
+	before = map[*ssa.BasicBlock]bool{}
+	// backward reachability from the call's block
+	work := []*ssa.BasicBlock{call.Block()}
+	seen := map[*ssa.BasicBlock]bool{call.Block(): true}
+	for len(work) > 0 {
+		b := work[len(work)-1]
+		work = work[:len(work)-1]
+		for _, p := range b.Preds {
+			if !seen[p] {
+				seen[p] = true
+				work = append(work, p)
+			}
+		}
+	}
+	for _, b := range fn.Blocks {
+		if seen[b] && b != call.Block() {
+			before[b] = true
+		}
+	}
+	return before, after
+}
+
+// c06ImpureExcept lists outside-service calls in region other than `except`.
+func c06ImpureExcept(w *an.World, fn *ssa.Function, region map[*ssa.BasicBlock]bool, except ssa.CallInstruction) []string {
+	r2 := map[*ssa.BasicBlock]bool{}
+	for b := range region {
+		if b != except.Block() {
+			r2[b] = true
+		}
+	}
+	return impureCallsIn(w, fn, r2)
+}
+
+// c06FnStores: g, or a function it reaches synchronously, stores field fld.
+func c06FnStores(w *an.World, g *ssa.Function, fld string) bool {
+	if g == nil || g.Blocks == nil {
+		return false
+	}
+	if len(storesTo(g, fld)) > 0 {
+		return true
+	}
+	for _, ef := range w.Summary(g).Effects {
+		if ef.Info.Static != nil && w.InModule(ef.Info.Static) && ef.Info.Static.Blocks != nil && len(storesTo(ef.Info.Static, fld)) > 0 {
+			return true
+		}
+	}
+	return false
+}
+
+// c06ZeroGuardField returns "SwapData.X" when fact f says that persisted field
+// X of SwapData holds its zero value ("" / nil).
+func c06ZeroGuardField(f an.Fact) string {
+	if !f.NonNum || f.Rel != "==" {
+		return ""
+	}
+	for _, pair := range [][2]string{{f.L, f.R}, {f.R, f.L}} {
+		if (pair[1] == `""` || pair[1] == "nil") && strings.HasPrefix(pair[0], "field:SwapData.") && !strings.Contains(pair[0], ">") {
+			return strings.TrimPrefix(pair[0], "field:")
+		}
+	}
+	return ""
+}
+
+// c06ZeroFactField is c06ZeroGuardField extended to predicate helpers: the fact
+// `p(swap) is true/false` where the in-module function p returns that value only
+// when SwapData.X is zero.
+func c06ZeroFactField(w *an.World, f an.Fact) string {
+	if fld := c06ZeroGuardField(f); fld != "" {
+		return fld
+	}
+	// `swap.GetX() == ""` where the in-module getter returns the field itself
+	if f.NonNum && f.Rel == "==" {
+		for _, pair := range [][2]ssa.Value{{f.LV, f.RV}, {f.RV, f.LV}} {
+			if pair[0] == nil || pair[1] == nil {
+				continue
+			}
+			zero := an.IsNilConst(pair[1])
+			if s, ok := an.ConstString(pair[1]); ok && s == "" {
+				zero = true
+			}
+			if !zero {
+				continue
+			}
+			if fld := c06GetterField(w, pair[0]); fld != "" {
+				return fld
+			}
+		}
+	}
+	if f.Rel != "true" && f.Rel != "false" {
+		return ""
+	}
+	call, ok := f.Cond.(*ssa.Call)
+	if !ok {
+		return ""
+	}
+	g := call.Common().StaticCallee()
+	if g == nil || !w.InModule(g) || g.Blocks == nil {
+		return ""
+	}
+	return c06PredZeroField(w, g, f.Rel == "true")
+}
+
+// c06GetterField: v is the result of an in-module getter whose every return is
+// the SwapData field X of its receiver/argument: "SwapData.X".
+func c06GetterField(w *an.World, v ssa.Value) string {
+	for {
+		switch x := v.(type) {
+		case *ssa.ChangeType:
+			v = x.X
+			continue
+		case *ssa.Convert:
+			v = x.X
+			continue
+		}
+		break
+	}
+	call, ok := v.(*ssa.Call)
+	if !ok {
+		return ""
+	}
+	g := call.Common().StaticCallee()
+	if g == nil || !w.InModule(g) || g.Blocks == nil || g.Signature.Results().Len() != 1 {
+		return ""
+	}
+	field := ""
+	for _, r := range an.Returns(g) {
+		if len(r.Results) != 1 {
+			return ""
+		}
+		t := w.Term(r.Results[0])
+		if !strings.HasPrefix(t, "field:SwapData.") || strings.Contains(t, ">") || (field != "" && field != t) {
+			return ""
+		}
+		field = t
+	}
+	return strings.TrimPrefix(field, "field:")
+}
+
+// c06PredZeroField: field X such that every return of g that may yield `want`
+// happens only when SwapData.X is zero; "" if there is no such field.
+func c06PredZeroField(w *an.World, g *ssa.Function, want bool) string {
+	res := g.Signature.Results()
+	if res.Len() != 1 {
+		return ""
+	}
+	if b, ok := res.At(0).Type().Underlying().(*types.Basic); !ok || b.Info()&types.IsBoolean == 0 {
+		return ""
+	}
+	field := ""
+	okAll := true
+	note := func(fld string) {
+		if fld == "" || (field != "" && field != fld) {
+			okAll = false
+			return
+		}
+		field = fld
+	}
+	var eval func(v ssa.Value, blk *ssa.BasicBlock, edge []an.Fact, depth int)
+	eval = func(v ssa.Value, blk *ssa.BasicBlock, edge []an.Fact, depth int) {
+		if depth > 6 {
+			okAll = false
+			return
+		}
+		switch x := v.(type) {
+		case *ssa.Const:
+			if x.Value == nil || x.Value.Kind() != constant.Bool {
+				okAll = false
+				return
+			}
+			if constant.BoolVal(x.Value) != want {
+				return
+			}
+			fld := ""
+			for _, f := range append(append([]an.Fact{}, w.FactsDominatingBlock(blk)...), edge...) {
+				if z := c06ZeroGuardField(f); z != "" {
+					fld = z
+				}
+			}
+			note(fld)
+		case *ssa.BinOp:
+			// (X == zero) yields `want` only when X is zero iff the comparison's
+			// polarity equals want
+			fld, isEq := c06ZeroCompare(w, x)
+			if fld == "" || isEq != want {
+				okAll = false
+				return
+			}
+			note(fld)
+		case *ssa.UnOp:
+			if x.Op == token.NOT {
+				// !(inner): want from inner == !want
+				sub := c06PredValueZero(w, x.X, !want)
+				note(sub)
+				return
+			}
+			okAll = false
+		case *ssa.Phi:
+			for i, e := range x.Edges {
+				pred := x.Block().Preds[i]
+				var ef []an.Fact
+				for _, f := range w.Facts(g) {
+					if f.Edge.From == pred && f.Edge.To() == x.Block() {
+						ef = append(ef, f)
+					}
+				}
+				eval(e, pred, ef, depth+1)
+			}
+		default:
+			okAll = false
+		}
+	}
+	for _, r := range an.Returns(g) {
+		if len(r.Results) != 1 {
+			return ""
+		}
+		eval(r.Results[0], r.Block(), nil, 0)
+	}
+	if !okAll {
+		return ""
+	}
+	return field
+}
+
+// c06PredValueZero: for a comparison value, the field that is zero whenever the
+// value equals want.
+func c06PredValueZero(w *an.World, v ssa.Value, want bool) string {
+	bo, ok := v.(*ssa.BinOp)
+	if !ok {
+		return ""
+	}
+	fld, isEq := c06ZeroCompare(w, bo)
+	if fld == "" || isEq != want {
+		return ""
+	}
+	return fld
+}
+
+// c06ZeroCompare recognises `swap.X == ""` / `swap.X != nil` …; isEq tells
+// whether the comparison is true when X is zero.
+func c06ZeroCompare(w *an.World, bo *ssa.BinOp) (field string, isEq bool) {
+	if bo.Op != token.EQL && bo.Op != token.NEQ {
+		return "", false
+	}
+	for _, pair := range [][2]ssa.Value{{bo.X, bo.Y}, {bo.Y, bo.X}} {
+		zero := an.IsNilConst(pair[1])
+		if s, ok := an.ConstString(pair[1]); ok && s == "" {
+			zero = true
+		}
+		if !zero {
+			continue
+		}
+		t := w.Term(pair[0])
+		if strings.HasPrefix(t, "field:SwapData.") && !strings.Contains(t, ">") {
+			return strings.TrimPrefix(t, "field:"), bo.Op == token.EQL
+		}
+	}
+	return "", false
+}
+
+// c06DoneRegion: the blocks of fn that can execute while field is already set
+// (every edge that carries the fact `field is zero`, directly or through a
+// predicate helper, removed).
+func c06DoneRegion(w *an.World, fn *ssa.Function, field string) map[*ssa.BasicBlock]bool {
+	if len(fn.Blocks) == 0 {
+		return nil
+	}
+	cut := cutEdges(w, fn, func(f an.Fact) bool { return c06ZeroFactField(w, f) == field })
+	return an.ReachBlocks([]*ssa.BasicBlock{fn.Blocks[0]}, cut, nil)
+}
+
+// ---- call index and call chains ------------------------------------------------------
+
+// c06CallIdx: production call sites per static callee; a closure passed as an
+// argument counts as called by the call it is passed to (as in an.Summary).
+type c06CallIdx struct {
+	sites map[*ssa.Function][]ssa.CallInstruction
+}
+
+var c06IdxCache sync.Map // *an.World -> *c06CallIdx
+
+func c06BuildCallIdx(w *an.World) *c06CallIdx {
+	if v, ok := c06IdxCache.Load(w); ok {
+		return v.(*c06CallIdx)
+	}
+	idx := &c06CallIdx{sites: map[*ssa.Function][]ssa.CallInstruction{}}
+	defer c06IdxCache.Store(w, idx)
+	for _, fn := range prodFuncs(w) {
+		if isDummy(w, fn) {
+			continue
+		}
+		for _, call := range an.Calls(fn) {
+			for _, g := range c06Callees(w, call) {
+				idx.sites[g] = append(idx.sites[g], call)
+			}
+		}
+	}
+	return idx
+}
+
+// c06Callees: the in-module functions a call runs synchronously (its static
+// callee and closures passed to it).
+func c06Callees(w *an.World, call ssa.CallInstruction) []*ssa.Function {
+	var out []*ssa.Function
+	if g := call.Common().StaticCallee(); g != nil && w.InModule(g) && g.Blocks != nil {
+		out = append(out, g)
+	}
+	for _, a := range call.Common().Args {
+		if mc, ok := a.(*ssa.MakeClosure); ok {
+			if g, ok := mc.Fn.(*ssa.Function); ok && g.Blocks != nil {
+				out = append(out, g)
+			}
+		}
+	}
+	return out
+}
+
+// c06Step is one call of a chain: Call is an instruction of Fn.
+type c06Step struct {
+	Fn   *ssa.Function
+	Call ssa.CallInstruction
+}
+
+// c06Chains returns the static call chains root -> … -> site (depth <= 6): each
+// chain lists the call made in root, the call made in its callee, …, and ends
+// with site itself. `go` statements are followed only when followGo is set.
+func c06Chains(w *an.World, idx *c06CallIdx, root *ssa.Function, site ssa.CallInstruction, followGo bool) [][]c06Step {
+	target := site.Parent()
+	// functions from which target is reachable
+	canReach := map[*ssa.Function]bool{target: true}
+	frontier := []*ssa.Function{target}
+	for d := 0; d < 6 && len(frontier) > 0; d++ {
+		var next []*ssa.Function
+		for _, f := range frontier {
+			for _, s := range idx.sites[f] {
+				if p := s.Parent(); !canReach[p] {
+					canReach[p] = true
+					next = append(next, p)
+				}
+			}
+		}
+		frontier = next
+	}
+	var out [][]c06Step
+	onPath := map[*ssa.Function]bool{}
+	var rec func(f *ssa.Function, path []c06Step)
+	rec = func(f *ssa.Function, path []c06Step) {
+		if len(out) >= 24 {
+			return
+		}
+		if f == target {
+			out = append(out, append(append([]c06Step{}, path...), c06Step{f, site}))
+			return
+		}
+		if len(path) >= 6 {
+			return
+		}
+		onPath[f] = true
+		for _, call := range an.Calls(f) {
+			if _, isGo := call.(*ssa.Go); isGo && !followGo {
+				continue
+			}
+			for _, g := range c06Callees(w, call) {
+				if canReach[g] && !onPath[g] {
+					rec(g, append(path, c06Step{f, call}))
+				}
+			}
+		}
+		onPath[f] = false
+	}
+	if canReach[root] {
+		rec(root, nil)
+	}
+	return out
+}
+
+// ==== shared-end ====
